@@ -219,6 +219,8 @@ fn exercise_string<B: Backend>(fx: &Fx<B>, s: &str, st: &mut Vec<&'static str>) 
             if let Ok(kt) = s.parse::<KeyText<V<B>, $K>>() {
                 st.push("keytext-parsed");
                 let _ = kt.to_string();
+                // the id of a key text is infallible public API, whatever the text carries
+                let _ = paseto_core::paserk::KeyId::<V<B>, $K>::from(&kt).to_string();
                 let raw = kt.as_raw_bytes().to_vec();
                 exercise_key_bytes::<B>(fx, $kind, &raw, st);
             }
@@ -403,11 +405,30 @@ fn sweep_lengths<B: Backend>(acc: &mut Acc) {
             }
         }
     }
+    // beyond 700 bytes: the lengths around the powers of two and a few in between, up to 64 KiB
+    // (fixed-size buffers sized for "the largest real value" overflow there)
+    let mut big: Vec<usize> = Vec::new();
+    for e in 10..=16u32 {
+        for d in -2i64..=2 {
+            big.push(((1i64 << e) + d).min(65535) as usize);
+        }
+    }
+    big.extend([900usize, 1500, 2350, 3000, 3063, 3064, 3065, 3066, 3067, 3142, 3200, 5000, 6000, 12000, 50000]);
+    big.sort();
+    big.dedup();
+    for h in 0..fx.own_headers.len() {
+        for len in &big {
+            for fill in 0..2u8 {
+                let i = Input::HeaderBytes { header: h as u8, len: *len as u16, fill, seed: (*len * 31 + h) as u32, footer: false };
+                acc.check(&i, |acc| run_input::<B>(&fx, &i, acc));
+            }
+        }
+    }
     for (ix, _) in fx.shapes.iter().enumerate() {
         let i = Input::KeyShape(((ix << 16) / fx.shapes.len().max(1) + 1).min(65535) as u16);
         acc.check(&i, |acc| run_input::<B>(&fx, &i, acc));
     }
-    acc.exhaustive.push(format!("{}: every decoded length 0..=700 x contents under each of {} headers; every C08 key shape", B::NAME, fx.own_headers.len()));
+    acc.exhaustive.push(format!("{}: every decoded length 0..=700 x contents and 50 lengths up to 64 KiB under each of {} headers; every C08 key shape", B::NAME, fx.own_headers.len()));
     println!("PROGRESS sweep done");
 }
 
